@@ -56,6 +56,37 @@ def classify_candidates(P, u, e, depth=0):
     return '?'
 
 
+def valid_only(u):
+    """the returned values of a strategy that are NOT provably a candidate of `identifiers` with a true validity.
+    Accepted closed forms of a returned value X (M = self.get_loading_and_validity(identifiers, expected_load,
+    load_details)):  None;  X under the fact self.is_loading_valid(X, expected_load, load_details)[0] or M[X][0], X being
+    each(identifiers) or under `X in identifiers`;  next(k for k, v in M.items() if v[0]);
+    self.sort_valid_by_*(M)[..][0] (the sorters keep valid entries only: cap|sorter)."""
+    fm = factmap(u)
+    M = 'self.get_loading_and_validity(identifiers, expected_load, load_details)'
+    bad = []
+    for v, f, n in returns(u):
+        if v is None or (isinstance(v, ast.Constant) and v.value is None):
+            continue
+        cv = closed_text(u, v)
+        facts = {(x[0], x[1]) for x in fm.closed(n)} if n is not None else set()
+        if ('self.is_loading_valid(%s, expected_load, load_details)[0]' % cv, True) in facts or \
+                ('%s[%s][0]' % (M, cv), True) in facts:
+            if cv == 'each(identifiers)' or ('%s in identifiers' % cv, True) in facts:
+                continue
+        if cv.startswith('self.sort_valid_by_instance_load(%s)[' % M) or cv.startswith('self.sort_valid_by_node_load(%s)[' % M):
+            if cv.endswith('][0]'):
+                continue
+        if isinstance(v, ast.Call) and call_text(v) == 'next' and v.args and isinstance(v.args[0], (ast.GeneratorExp, ast.ListComp)):
+            view = comp_view(u, v.args[0])
+            if view['iters'] == [M + '.items()'] and view['elt'] == 'each(%s.items())[0]' % M and \
+                    ('each(%s.items())[1][0]' % M, True) in view['conds'] and \
+                    (len(v.args) == 1 or ast.unparse(v.args[1]) == 'None'):
+                continue
+        bad.append('`%s`' % cv[:160])
+    return bad
+
+
 def run(P, R):
     # ---------------------------------------------------------------- R1
     r1 = R.rule('R1', 'who-may-call + def-use', 'a start request is emitted at one point only: '
@@ -233,21 +264,14 @@ def run(P, R):
              and 'rules.expected_load' in ast.unparse(c) for c in own_nodes(gl.node))
     R.check(r3, ok, 'the instance load sums expected_load over the processes running there', 'cap|instance-load',
             gl.loc(), 'SupvisorsInstanceStatus.get_load does not sum rules.expected_load over running_processes()')
-    valid_sources = 0
     for cname in ('ConfigStrategy', 'LessLoadedStrategy', 'LessLoadedNodeStrategy', 'MostLoadedStrategy',
                   'MostLoadedNodeStrategy', 'LocalStrategy'):
         u = P.unit(cname + '.get_supvisors_instance')
-        uses_map = must_call(u.node, lambda c: call_text(c) == 'self.get_loading_and_validity') or \
-            any(f for v, f, n in returns(u))
-        txt = ast.unparse(u.node)
-        filt = ('if validity' in txt) or ('sort_valid_by_' in txt)
-        # the candidates handed to get_loading_and_validity are the function's own `identifiers` parameter
-        lc = [c for c in own_nodes(u.node) if isinstance(c, ast.Call) and call_text(c) == 'self.get_loading_and_validity']
-        own = bool(lc) and all(ast.unparse(c.args[0]) == 'identifiers' for c in lc)
-        R.check(r3, bool(lc) and filt and own, '%s returns only a candidate whose validity is true' % cname,
-                'cap|strategy|%s' % cname, u.loc(), '%s.get_supvisors_instance does not filter its result on the '
-                'validity computed by get_loading_and_validity(identifiers, ...)' % cname)
-        valid_sources += 1
+        bad = valid_only(u)
+        R.check(r3, not bad, '%s returns only a candidate whose validity is true' % cname,
+                'cap|strategy|%s' % cname, u.loc(), '%s.get_supvisors_instance returns %s, which is not a candidate of '
+                '`identifiers` whose validity (is_loading_valid / get_loading_and_validity(identifiers, ..)) is true' %
+                (cname, bad))
     for nm in ('sort_valid_by_instance_load', 'sort_valid_by_node_load'):
         u = P.unit('AbstractStartingStrategy.' + nm)
         comps = [comp_view(u, c) for c in own_nodes(u.node) if isinstance(c, ast.ListComp)]
